@@ -283,7 +283,12 @@ def _wsh_miniscript(ch: Choices, cos: list[Cosigner], acct: int) -> WalletSpec:
     a, b, c = (_key(cos, r) for r in refs)
     ia, ib, ic = holders
     older = ch.pick([36, 1, 65535, (1 << 22) | 5], "ms.older")
-    after = ch.pick([500_000, 1, 499_999_999], "ms.after")
+    # one kind of clock per run (a transaction has one nLockTime: a height and a time never meet in it), and on the
+    # time side the first value read as a time, its neighbour, a date and the largest miniscript takes
+    clock = ch.notes.get("after_clock")
+    if clock is None:
+        clock = ch.notes["after_clock"] = ch.pick(["height", "time"], "ms.after.clock")
+    after = ch.pick([500_000, 1, 499_999_999], "ms.after") if clock == "height" else ch.pick([500_000_000, 500_000_000, 500_000_001, 1_700_000_000, 2**31 - 1], "ms.after.time")
     pre = ch.nbytes(32, "ms.preimage")
     digests = {
         "sha256": ("sha256_preimages", sha256(pre)),
